@@ -36,7 +36,7 @@ EXHAUSTIVE = {"quick": True, "thorough": True}
 
 F = Fraction
 SORT_KINDS = ["sort-objective", "sort-constraint"]
-SEQ_QUICK, SEQ_THOROUGH = 350, 7000
+SEQ_QUICK, SEQ_THOROUGH = 500, 7000
 MIXED_KINDS = ["sort-objective", "sort-constraint", "sort-objective", "sort-constraint", "cvar-objective", "cvar-constraint"]
 CFGW_POOL = [0.0, 0.0, 0.125, 0.25, 0.375, 0.5, 0.625, 0.75, 0.875, 1.0]
 
@@ -165,7 +165,7 @@ def gen_cases(tier, rng):
         c = base.gen_filt(rng, SORT_KINDS, wild_rate=0.12)
         c["_stream"] = "filt"
         yield c
-    for _ in range(150 if tier == "quick" else 7000):
+    for _ in range(200 if tier == "quick" else 7000):
         c = base.gen_e2e(rng, MIXED_KINDS)
         c["_stream"] = "e2e"
         yield c
